@@ -21,10 +21,24 @@ inductive Err where
   | other           -- any other exception class
   deriving DecidableEq, Repr, Inhabited
 
+deriving instance DecidableEq for Except
+
+/-- What the translator extracts from a `*SpineImporter.import_token`: the kern / root / mens importers, or a
+    wrapper around a fresh kern importer with its literal decision data. -/
+inductive ImpRec where
+  | kern | root | mens | unknownClass
+  | wrap (accepted : List Str) (negated : Bool) (fallbackExc fallbackAny : Str)
+  deriving Repr
+
 namespace RTree
 def root {α} : RTree α → α | .node a _ => a
 def kids {α} : RTree α → List (RTree α) | .node _ cs => cs
 end RTree
+
+/-- association-list lookup = Python dict subscription (first match; keys of a dict are unique) -/
+def lookup {α β} [BEq α] (k : α) : List (α × β) → Option β
+  | [] => none
+  | (k', v) :: r => if k' == k then some v else lookup k r
 
 /-- `first some` over a list (the Python `for … if r is not None: return r`). -/
 def firstSome {α β} (f : α → Option β) : List α → Option β
